@@ -53,12 +53,12 @@ ASSUMPTIONS = [
 ]
 
 CH = {'A': 0, 'B': 1, 'C': 2}
-OP_TIME_LIMIT = 2.0
+OP_TIME_LIMIT = 4.0
 _HANGS = [0]
 
 
 def op_time_limit():
-    """2 s per rewrite (the programs are tiny: a legitimate run takes milliseconds); once several hangs were seen the
+    """4 s per rewrite (the programs are tiny: a legitimate run takes milliseconds); once several hangs were seen the
     limit drops so that a code change that makes a rewrite loop forever does not stall the whole check"""
     return OP_TIME_LIMIT if _HANGS[0] < 3 else 0.3
 
@@ -190,6 +190,11 @@ def describe_wf(wf, reg):
     return ['A', reg.atom(wf), vlib.frac_json(wf.duration)]
 
 
+def _counts_positive(t):
+    """to_waveform is only meant for programs whose counts are all >= 1 (what create_program produces)"""
+    return t['r'] >= 1 and all(_counts_positive(c) for c in t['c'])
+
+
 def describe_tree(node, reg):
     return {'r': int(node.repetition_count), 'w': None if node.waveform is None else describe_wf(node.waveform, reg),
             'm': [reg.window(w) for w in (node._measurements or [])], 'c': [describe_tree(c, reg) for c in node]}
@@ -310,7 +315,7 @@ def _run_impl(case):
                 return {'ret': int(numeric.smallest_factor_ge(case['n'], case['m']))}
         except (AssertionError, ZeroDivisionError, ValueError) as e:
             return {'err': ERRS[type(e).__name__]}
-    with vlib.time_limit(10):
+    with vlib.time_limit(60):
         prog = build_program(case['build'])
         reg = Registry()
         obs = {'input': describe_tree(prog, reg), 'stale': has_stale_index(prog)}
@@ -385,7 +390,7 @@ def _run_impl(case):
     obs['mid'] = mid
     obs['last'] = [last[0], last[1]]
     case_path = last[0]
-    with vlib.time_limit(10):
+    with vlib.time_limit(60):
         obs['after'] = describe_tree(prog, reg)
         obs['dur'] = vlib.frac_json(prog.duration)
         if 'err' not in obs:
@@ -401,6 +406,16 @@ def _run_impl(case):
             obs['stale_after'] = has_stale_index(prog)
         except Exception:
             obs['stale_after'] = True
+        # to_waveform(program) after the rewrite must still sample to what the program played before (where defined)
+        try:
+            wf = to_waveform(prog.copy_tree_structure()) if _counts_positive(obs['after']) else None
+            if wf is not None and len(times):
+                smp = {c: wf.unsafe_sample(c, times) for c in chans}
+                obs['twf_after_same'] = same_arrays(smp, before)
+        except vlib.Timeout:
+            raise
+        except Exception:
+            obs['twf_after_same'] = None      # empty leaves / count 0: to_waveform is not defined on such trees
     return obs
 
 
@@ -488,6 +503,8 @@ def py_spec(case, obs):
     if case['kind'] == 'rw':
         if not obs.get('play_same', True):
             return 'sampled voltages (or the end time) of the program differ before and after the rewrite'
+        if obs.get('twf_after_same') is False:
+            return 'to_waveform(program) after the rewrite samples differently from the program before the rewrite'
     return None
 
 
@@ -1049,14 +1066,17 @@ def search_failing(ctx, broken):
 
 
 MANIFEST = {
-    'level_text': 'Proof (Coq, all program trees, by induction): every rewrite of loop.py modelled on the pure program '
-                  'tree preserves the list of played pieces (exactly, or up to coalescing adjacent equal constants for '
-                  'the waveform-merging rewrites) and the duration; postconditions of flatten_and_balance and '
-                  'make_compatible; termination of flatten_and_balance. The model is tied to the code by an exact '
-                  'correspondence check on generated programs (tree shape, counts, leaf waveforms, errors) and the '
-                  'sampled voltages before/after are compared on the real objects.',
+    'level_text': 'Proof (Coq, all program trees, induction on tree / fuel / node count): every rewrite of loop.py modelled on '
+                  'the pure program tree (unroll, unroll_children, encapsulate, split_one_child, _merge_single_child, cleanup, '
+                  'flatten_and_balance) preserves the exact list of played pieces and the duration; to_waveform, '
+                  'make_compatible and roll_constant_waveforms preserve the voltage function (same_play) and the duration; '
+                  'postconditions of flatten_and_balance (depth, balance), make_compatible (every leaf >= minimum and a '
+                  'multiple of the quantum) and cleanup; flatten_and_balance terminates on every tree. The model is tied to '
+                  'the code by an exact correspondence check on generated programs (tree shape, counts, leaf waveforms, '
+                  'errors, rewrite sequences); sampled voltages before/after are compared on the real objects.',
     'level_note': 'Trusted: Coq kernel, harness (describer, reference player), leaf waveform sampling (C08), the tree '
-                  'bookkeeping invariant of utils/tree.py (C09). Volatile repetition counts are not modelled.',
+                  'bookkeeping invariant of utils/tree.py (C09; violations are detected on the objects). Volatile '
+                  'repetition counts are not modelled: such programs are checked against the specification only.',
     'technique': 'Coq proof over a hand-written model + correspondence check + sample comparison on the implementation',
     'design_ref': 'DESIGN.md §5 C06, §4.5, Appendix D2',
 }
